@@ -18,7 +18,8 @@ PREV = {
   "a canonical-form check in PopMessage that refuses the long length header for 254-byte strings",
   "PopRawBytes reading the bytes.Reader directly (zero-length read at the end)",
   "the flag bit in the tag of a hand-written wrapper struct (InitConnectionParams)",
-  "PutString replacing invalid UTF-8 sequences before framing"
+  "PutString replacing invalid UTF-8 sequences before framing",
+  "the interface-fit check of decodeValue calling reflect.Value.IsNil on every decoded kind"
  ],
  "C02": [
   "one header byte of the long-string length in the TL encoder",
@@ -31,7 +32,8 @@ PREV = {
   "the 2^24 refusal bound of putLargeBytes turned into 2^31",
   "encodeStruct keeping its field list on the Encoder across nested objects",
   "the decoder's depth given back by a deferred closure that captured the incremented value",
-  "the flag bit decided by a home-made emptiness test (empty slice counts as absent)"
+  "the flag bit decided by a home-made emptiness test (empty slice counts as absent)",
+  "int128/int256 left-padded from a package-level zero array that append writes into"
  ],
  "C03": [
   "the padding amount computed in ige.Encrypt",
@@ -44,7 +46,8 @@ PREV = {
   "serializePacket doubling the seq_no a second time",
   "transport.ReadMsg refusing packets sealed with a salt other than the session's",
   "DeserializeEncrypted returning the body together with the padding (GetRestOfMessage)",
-  "ige.Decrypt trimming trailing zero bytes of the plaintext"
+  "ige.Decrypt trimming trailing zero bytes of the plaintext",
+  "serializePacket writing the session id before the salt"
  ],
  "C04": [
   "the integer type used in the declared-length check of DeserializeEncrypted",
@@ -57,7 +60,8 @@ PREV = {
   "isPacketEncrypted losing its 8-byte guard behind a 4-byte early refusal in transport.ReadMsg",
   "the key id compared with bytes.EqualFold",
   "the plaintext re-sliced past the inner header before the length refusal",
-  "transport.ReadMsg routing every packet to the plain parser while the session has no key"
+  "transport.ReadMsg routing every packet to the plain parser while the session has no key",
+  "the plain reader comparing the declared length with the body read instead of len(data)"
  ],
  "C05": [
   "the bound of the padding-strip loop in DecryptMessageWithTempKeys",
@@ -70,7 +74,8 @@ PREV = {
   "ige.Decrypt refusing ciphertexts longer than 1 MiB",
   "Decrypt stripping trailing zero bytes from its result",
   "DecryptMessageWithTempKeys decrypting into a sync.Pool buffer",
-  "NewCipher caching the key schedule keyed by the caller's (aliased) key slice"
+  "NewCipher caching the key schedule keyed by the caller's (aliased) key slice",
+  "EncryptMessageWithTempKeys hashing payload plus padding"
  ],
  "C06": [
   "the byte width used for the salt derived from server_nonce",
@@ -83,7 +88,8 @@ PREV = {
   "RSAFingerprint trimming only one leading zero byte of the public exponent",
   "the service-channel send turned into a select with default",
   "p_q_inner_data.pq re-rendered from the parsed number (pq.Bytes())",
-  "a generator check in makeAuthKey that forgets g = 4"
+  "a generator check in makeAuthKey that forgets g = 4",
+  "SplitPQ drawing from one package-level math/rand.Rand"
  ],
  "C07": [
   "a wrong variable in one of the nonce comparisons of makeAuthKey",
@@ -96,7 +102,8 @@ PREV = {
   "the fingerprint search comparing only the low 32 bits",
   "makeRequest re-issuing the request on dh_gen_retry",
   "keys.RSAFingerprint memoised by a package-level sync.Once",
-  "Disconnect saving the session whenever an auth key is present"
+  "Disconnect saving the session whenever an auth key is present",
+  "readMsg passing only the success constructors to the service channel"
  ],
  "C08": [
   "a shift amount in the abridged length header writer",
@@ -109,7 +116,8 @@ PREV = {
   "transport.ReadMsg closing the connection after an error-code frame",
   "mode.Detect reading into a slice of the package-level announcement array",
   "SetLinger(0) on the dialled TCP socket",
-  "the abridged reader wrapping its read errors with %w"
+  "the abridged reader wrapping its read errors with %w",
+  "the intermediate length-prefix buffer kept in the mode object and shared by ReadMsg and WriteMsg"
  ],
  "C09": [
   "registering the response waiter after the request was written",
@@ -122,7 +130,8 @@ PREV = {
   "a bounded response table that evicts the oldest waiters beyond 256 entries",
   "a gzip_packed rpc_result delivered without unwrapping",
   "Disconnect closing and forgetting every waiter",
-  "container items dispatched in goroutines that share the loop variable"
+  "container items dispatched in goroutines that share the loop variable",
+  "tryToProcessErr answering nil for rpc_error codes >= 500"
  ],
  "C10": [
   "an early return that skips the acknowledgement in processResponse",
@@ -135,7 +144,8 @@ PREV = {
   "MessageRequireToAck returning false for ping (even seq_no on a content-related message)",
   "seq_no incremented in two halves around the write",
   "the ack test written as seq_no%2 == 1",
-  "the bad_server_salt handler assigning bad_msg_seqno to the seq_no counter"
+  "the bad_server_salt handler assigning bad_msg_seqno to the seq_no counter",
+  "the msg_container decoder reusing one Encrypted header for every item"
  ],
  "C11": [
   "skipping the waiter notification when the new salt was already adopted",
@@ -148,7 +158,8 @@ PREV = {
   "registering the response waiter after the write (a bad_server_salt overtakes the sender)",
   "SaveSession called before the new salt of new_session_created is assigned",
   "a guard-clause break in the bad_server_salt arm leaving m.mutex locked",
-  "the rotation handler deleting every table entry older than the rejected id"
+  "the rotation handler deleting every table entry older than the rejected id",
+  "the bad_server_salt arm routed through writeRPCResponse (NotFound returned for a rejected ack)"
  ],
  "C12": [
   "opening the session file without truncation in Store",
@@ -161,7 +172,8 @@ PREV = {
   "Load reporting a zero-length session file as not found",
   "Store rendering the JSON by hand with %q",
   "the loader's cache key kept as mtime in whole seconds",
-  "NewMTProto treating a stored session with salt 0 as not encrypted"
+  "NewMTProto treating a stored session with salt 0 as not encrypted",
+  "NewFromFile expanding environment variables in the path"
  ],
  "C13": [
   "two parameters swapped in one generated method signature",
@@ -174,7 +186,8 @@ PREV = {
   "two constants of a generated enum carrying each other's constructor id",
   "one constructor dropped from the registration list in init_gen.go",
   "a field's flag bit changed in types_gen.go (WallPaperSettings.Rotation)",
-  "one generated method building another method's Params struct"
+  "one generated method building another method's Params struct",
+  "a generated wrapper returning the type assertion's ok flag instead of the asserted value"
  ],
  "C14": [
   "the vector-ness of a parameter dropped from the generator's argument grouping test",
@@ -187,7 +200,8 @@ PREV = {
   "the parser skipping definitions whose name merely starts with a builtin type name",
   "the wrapper body counting parameters without the flags word while the signature counts with it",
   "the enum classification taken from the last constructor of the type",
-  "encoded_in_bitflags emitted for every conditional Go bool (flags.N?Bool too)"
+  "encoded_in_bitflags emitted for every conditional Go bool (flags.N?Bool too)",
+  "FlagIndex() emitted only when maxBitflag() > 0"
  ],
  "C15": [
   "an integer overflow in the vector size bound of the decoder",
@@ -200,7 +214,8 @@ PREV = {
   "DumpWithoutRead failing with EOF at end of input, making DecodeUnknownObject return (nil, nil)",
   "decodeValue going on into the kind switch after an error set below it",
   "the string-length bound moved into read(), after the allocation",
-  "DecodeNestedObject starting the inner decoder at depth 0"
+  "DecodeNestedObject starting the inner decoder at depth 0",
+  "the nesting depth counted only for pointer and slice kinds"
  ],
  "C16": [
   "waiting on the goroutine wait-group from inside the reading goroutine on disconnect",
@@ -213,7 +228,8 @@ PREV = {
   "the gzip inflate loop ending only on io.EOF (spins on a damaged stream)",
   "Disconnect closing the waiter channels while the table keeps the entries",
   "a guard-clause break in the bad_server_salt arm leaving m.mutex locked",
-  "the EOF arm of the receive loop calling CreateConnection without Disconnect"
+  "the EOF arm of the receive loop calling CreateConnection without Disconnect",
+  "the waiter table's Add taking RLock instead of Lock"
  ],
  "C17": [
   "an extra row in the error-prefix table",
@@ -226,7 +242,8 @@ PREV = {
   "Reconnect reloading the stored session, which puts the old data centre address back",
   "SetDCList rebuilding the table aside with the old entries copied last",
   "negative rpc_error codes made positive in RpcErrorToNative",
-  "a gzip_packed rpc_result delivered without unwrapping (rpc_error lost)"
+  "a gzip_packed rpc_result delivered without unwrapping (rpc_error lost)",
+  "a negative PHONE_MIGRATE target flipped to its absolute value"
  ],
  "C18": [
   "the 256-byte padding dropped on one SRP intermediate value",
@@ -239,7 +256,8 @@ PREV = {
   "calcSHA256 joining its parts in a fixed 1024-byte buffer",
   "saltingHashing appending onto the caller's salt slice",
   "the exported wrapper testing res == nil before err",
-  "H(p) xor H(g) computed through big.Int (leading zero bytes lost)"
+  "H(p) xor H(g) computed through big.Int (leading zero bytes lost)",
+  "the SRP group check refusing g >= 7"
  ],
  "C19": [
   "a math/rand fallback when crypto/rand fails",
@@ -252,7 +270,8 @@ PREV = {
   "nonce bytes passing through a shared, wiped package-level scratch buffer",
   "MakeGAB memoising (b, g^b) per group in a sync.Map",
   "the clock OR-ed into the req_pq nonce after the draw",
-  "the upper half of the req_pq nonce overwritten with the session id"
+  "the upper half of the req_pq nonce overwritten with the session id",
+  "the SRP ephemeral redrawn from math/rand when it is >= p"
  ],
  "C20": [
   "lower-casing the whole URL path before template matching",
@@ -265,7 +284,8 @@ PREV = {
   "the address-literal guard hoisted in front of fixURLHost (scheme-less bracketed host)",
   "TrimPrefix(username, \"@\") before lower-casing the domain",
   "a third path template /joinchat overlapping /{username}",
-  "host membership tested with strings.EqualFold"
+  "host membership tested with strings.EqualFold",
+  "lower-casing of the username skipped unless unicode.IsUpper finds a letter"
  ]
 }
 TASK = 'You are helping test a verification framework by writing ONE realistic defect into a Go library. Work ONLY inside the git worktree /tmp/seed/{ID}-{R} (a checkout of the pure-Go MTProto/Telegram client library xelaj/mtproto). Do NOT read or write anything under /verif, /repo or /root/.vp, and do not look at other directories under /tmp/seed. Do NOT use `git stash` (the stash is shared with other worktrees): to run something without your change use `git diff > /tmp/seed/{ID}-{R}.patch; git apply -R /tmp/seed/{ID}-{R}.patch; ...; git apply /tmp/seed/{ID}-{R}.patch`.\n\nThe property the library is supposed to satisfy is in /tmp/seed/{ID}-{R}.prop.txt - read it first, then read the source files it names (and whatever they call).\n\nEnvironment (every shell call): `export GOFLAGS=-mod=mod GOPROXY=off GOSUMDB=off GOTOOLCHAIN=local` (no network, nothing can be downloaded). The repository has three Go modules: `.`, `internal/cmd/tlgen`, `telegram/deeplinks`. The existing test suite is: `for m in . internal/cmd/tlgen telegram/deeplinks; do (cd /tmp/seed/{ID}-{R}/$m && go test -vet=off -count=1 ./...) || echo FAILED; done` (building package telegram takes about a minute).\n\nTask: make ONE small, realistic change to the non-test source (the kind of slip, "simplification", "optimisation", "hardening", refactoring or well-meant "fix" a hurried maintainer could plausibly make and a reviewer could plausibly miss) such that the property NO LONGER HOLDS for some input / path / schedule / history, while (a) everything still compiles in all three modules and (b) the existing test suite still passes, unedited. Prefer a defect that needs something specific to manifest (a particular value shape, boundary, rare path, interleaving or error condition) over one that breaks every use. Keep the change minimal (1-12 lines). Previous testers already tried these: {PREV}. Choose a DIFFERENT place and mechanism from all of them. Go through the clauses of the property statement and its quantifier one by one, list which clause each earlier attempt attacked, and pick a clause (or a helper function, a caller, an initialisation, a cleanup path) nobody has touched; the less obvious the better, as long as the property is genuinely broken.\n\nDeliver, all inside /tmp/seed/{ID}-{R}:\n1. the change itself, left uncommitted in the worktree (source files only);\n2. a demonstration: NEW test file(s) named zz_seed_demo_test.go in the package(s) concerned (same-package tests may use unexported identifiers), test names starting with TestSeed, that FAIL with your change and PASS on the original code - verify both yourself; it must be deterministic (or repeat enough to be reliable) and finish within a minute; use fake connections/servers/in-memory pipes where needed, never the network;\n3. /tmp/seed/{ID}-{R}/SEED.md describing: what you changed and where, why it breaks the property, what it needs in order to manifest, and the exact commands you ran with their results.\n\nFinish by reporting: the output of `git -C /tmp/seed/{ID}-{R} diff` (source change only), the demo file path(s), and the observed results of the runs (suite with change, demo with change, demo without change). If your first idea turns out to be caught by the existing tests, try another. If, while reading, you notice something in the UNCHANGED code that already violates the property, mention it briefly at the end of your report (do not use it as your seed).\n'
